@@ -890,6 +890,51 @@ def nconcat2(src, log):
         log.append("N7 [a, b].concat() -> vx_concat2(a, b)")
 
 
+def n19_range_rev_map_find(src, log):
+    """`(A..=B).rev().map(|K| { BODY }).find(|M| PRED)`  ->  downward loop with early exit
+         { let mut __vx_fK = None; let mut __vx_kK = B; while __vx_kK >= A { let K = __vx_kK; let __vx_mK = { BODY };
+           let hit = { let M = &__vx_mK; PRED }; if hit { __vx_fK = Some(__vx_mK); break; } __vx_kK -= 1; } __vx_fK }
+    (definition of rev + map + find over an inclusive range; requires A >= 1 so that the counter cannot underflow:
+    the rule only fires for the literal lower bound 1)."""
+    k = 0
+    while True:
+        toks = lex(src)
+        hit = None
+        cls = find_closures(src, toks)
+        for ci, c in enumerate(cls):
+            b0, b1, st, en, blk = c
+            t = toks
+            # `( 1 ..= B ) . rev ( ) . map ( |K| {..} ) . find ( |M| PRED )`
+            if not (blk and b1 == b0 + 2 and t[b0 + 1].kind == "ident" and t[b0 - 1].text == "(" and t[b0 - 2].text == "map"
+                    and t[b0 - 3].text == "." and t[b0 - 4].text == ")" and t[b0 - 5].text == "(" and t[b0 - 6].text == "rev"
+                    and t[b0 - 7].text == "." and t[b0 - 8].text == ")"):
+                continue
+            ro = t[b0 - 8].mate
+            if not (t[ro + 1].text == "1" and t[ro + 2].text == "..="):
+                continue
+            hi = src[t[ro + 3].start:t[b0 - 9].end]
+            mc = t[b0 - 1].mate
+            if mc != en + 1 or not (t[mc + 1].text == "." and t[mc + 2].text == "find" and t[mc + 3].text == "("):
+                continue
+            fo = mc + 3
+            fc = t[fo].mate
+            # the find closure
+            f = [x for x in cls if fo < x[0] < fc]
+            if len(f) != 1 or f[0][1] != f[0][0] + 2 or t[f[0][0] + 1].kind != "ident" or f[0][3] + 1 != fc:
+                continue
+            hit = (ro, fc, hi, t[b0 + 1].text, src[t[st].start:t[en].end], t[f[0][0] + 1].text, src[t[f[0][2]].start:t[f[0][3]].end])
+            break
+        if hit is None:
+            return src
+        i, e, hi, kvar, body, mvar, pred = hit
+        fv, kv, mv = f"__vx_f{k}", f"__vx_k{k}", f"__vx_m{k}"
+        rep = (f"{{ let mut {fv} = None; let mut {kv} = {hi}; while {kv} >= 1 {{ let {kvar} = {kv}; let {mv} = {body}; "
+               f"let __vx_hit{k} = {{ let {mvar} = &{mv}; {pred} }}; if __vx_hit{k} {{ {fv} = Some({mv}); break; }} {kv} -= 1; }} {fv} }}")
+        src = src[:toks[i].start] + rep + src[toks[e].end:]
+        log.append(f"N19 (1..={hi}).rev().map(|{kvar}| ..).find(|{mvar}| ..) -> downward loop")
+        k += 1
+
+
 def n18_rev_any(src, log):
     """`E.iter().rev().any(|X| PRED)`  ->  a reverse index loop with early exit
          { let mut __vx_rK = false; let mut __vx_iK = E.len(); while __vx_iK > 0 { __vx_iK -= 1; let X = &E[__vx_iK]; if PRED { __vx_rK = true; break; } } __vx_rK }
@@ -1117,6 +1162,8 @@ def normalise(src, rules, log, ctx=None):
             src = n9g_match_guard_general(src, log)
         elif r == "n13":
             src = n13_inline_emit_node(src, log, ctx.get("n13_def"))
+        elif r == "n19":
+            src = n19_range_rev_map_find(src, log)
         elif r == "n18":
             src = n18_rev_any(src, log)
         elif r == "n17":
